@@ -1218,6 +1218,7 @@ func emitCase(r *hx.Run, sub uint64, ops []string, res *caseResult) {
 		for ; nf < len(res.fails) && res.fails[nf].at == i; nf++ {
 			fl := res.fails[nf]
 			r.Fail(fl.oracle, fl.detail+fmt.Sprintf("; history (%d requests): %v", i+1, r.CaseLines()), fl.sig)
+			r.Count("finding:" + fl.oracle)
 		}
 		if out.traced {
 			r.CountN("traced-events", out.nEvents)
@@ -1396,6 +1397,12 @@ func main() {
 		"realms created, one iteration reporting >= 2 entries and three successful mutations; distinct by sha256 of the op lines"
 	if lines := r.ReplayLines(); lines != nil {
 		replaying = true
+		if strings.HasPrefix(lines[0], "m ") {
+			runMemCase(r, 0, nil, lines)
+			r.Finish()
+
+			return
+		}
 		runCase(r, 0, lines)
 		r.Finish()
 
@@ -1404,6 +1411,14 @@ func main() {
 	runPure(r)
 	for _, c := range corpus {
 		runCase(r, 0, c)
+	}
+	// the memory stream: buffers are first-class, the caller overwrites and reuses them at any time (Hive/Model/KVMem.lean)
+	for _, c := range memCorpus {
+		runMemCase(r, 0, nil, c)
+	}
+	for i := 0; i < 600*r.Scale; i++ {
+		rng, sub := r.Rng.Fork()
+		runMemCase(r, sub, rng, nil)
 	}
 	n := 4000 * r.Scale
 	if r.Tier == "thorough" {
